@@ -769,6 +769,39 @@ theorem keeps_restart (s : St) : Keeps s.client s.restart.client := by
   unfold St.restart
   exact (keeps_reload s.client).trans (keeps_foldl _ keeps_restartTower _ s.reloaded)
 
+theorem keeps_retry' (s s' : St) (h : s'.client = s.client) (t : TowerId) (locs : List Loc) :
+    Keeps s.client (s'.retry t locs).client := by
+  rw [← h]; exact keeps_retry s' t locs
+
+theorem keeps_release (s : St) (t : TowerId) (m : AddMode) : Keeps s.client (s.release t m).client := by
+  unfold St.release
+  simp only
+  split
+  · refine keeps_retry' s _ ?_ t _
+    rfl
+  · exact Keeps.refl _
+
+theorem keeps_holdTurn (t : TowerId) (l : Loc) (acc : St) (x : TowerId) :
+    Keeps acc.client (holdTurn t l acc x).client := by
+  unfold holdTurn
+  split
+  · have kh := keeps_hookTower acc t l
+    generalize hookTower acc t l = r at kh
+    obtain ⟨s1, start⟩ := r
+    simp only at kh ⊢
+    split
+    · refine kh.trans (keeps_retry' s1 _ ?_ t _)
+      rfl
+    · exact kh
+  · exact keeps_notifyTower acc x l
+
+theorem keeps_holdAfter (s : St) (t : TowerId) (l : Loc) : Keeps s.client (s.holdAfter t l).client := by
+  unfold St.holdAfter
+  simp only
+  have k := keeps_foldl (holdTurn t l) (fun a x => keeps_holdTurn t l a x) (List.range s.n)
+    { s with beh := fun x => if x = t then { s.beh t with down := true, hold := true } else s.beh x }
+  exact k
+
 /-- every event except an abandon keeps the client consistent, every tower listed, every
 record and every proof -/
 theorem keeps_step (s : St) (ev : Ev) (hab : ∀ t, ev ≠ .abandon t) :
@@ -780,5 +813,7 @@ theorem keeps_step (s : St) (ev : Ev) (hab : ∀ t, ev ≠ .abandon t) :
   | retry t => exact keeps_manualRetry s t
   | abandon t => exact absurd rfl (hab t)
   | restart => exact keeps_restart s
+  | release t m => exact keeps_release s t m
+  | holdAfter t l => exact keeps_holdAfter s t l
 
 end Teos.Plugin
